@@ -333,3 +333,55 @@ reader_contract("_r_long", 4, "<i")
 reader_contract("_r_long64", 8, "<q")
 
 ALL_CONTRACTS = list(CONTRACTS)
+
+
+# ------------------------------------------------------------------------------------------------ 'f' / 'x': text floats
+# The text itself is outside the model (an opaque chunk); what is proved is its provenance and framing: the chunk is
+# repr(x) of the very argument (CPython's repr is the shortest text that reads back to the same double: trusted), preceded by
+# a one-byte length that is the chunk's length, preceded by the type code.
+from pyvc.engine import Opaque as _Opaque
+
+
+class FloatArg(Maker):
+    def __call__(self, eng, name):
+        return _Opaque(name, float), []
+
+    def examples(self, rng, n):
+        return [0.0, -0.0, 1.5, 0.1 + 0.2, 1.7976931348623157e+308, 5e-324, float("inf"), float("-inf"), 1e22, 1.0 / 3.0, 123456789.12345678]
+
+
+def _chunk_of(_engine, pred):
+    for v, sq in getattr(_engine, "opaque_seqs", {}).values():
+        if pred(v):
+            return v, ZSeq(sq)
+    return None, None
+
+
+def _float_post(self, x, _old_self, _engine):
+    v, chunk = _chunk_of(_engine, lambda o: o.tag == "repr" and o.src and o.src[0] is x)
+    if v is None:
+        return [("the text written is repr(x) of the argument", False)]
+    ln = _engine.opaque_lens.get(id(v))
+    if ln is None:
+        return [("the length byte is len(repr(x))", False)]
+    return [("stream", out_of(self) == _old_self.out + [ord("f")] + [ln[1]] + chunk),
+            ("length-fits-one-byte", And(ln[1] >= 0, ln[1] < 256))]
+
+
+def _native_float(config, inputs):
+    import marshal
+    x = inputs["x"]
+    if not isinstance(x, float):
+        return None
+    try:
+        got = bytes(_run_writer("dump_float", x))
+    except Exception as e:
+        return {"violated": ["raises:%s" % type(e).__name__], "exception": repr(e)}
+    back = marshal.loads(got)
+    ok = isinstance(back, float) and struct.pack("<d", back) == struct.pack("<d", x)
+    return {"violated": [] if ok else ["marshal.loads(%r) == %r, not %r" % (got, back, x)], "result": repr(got)}
+
+
+contract(M + "dump_float", params={"self": Marshaller(), "x": FloatArg()}, ensures=_float_post, native_check=_native_float)
+
+ALL_CONTRACTS = list(CONTRACTS)
